@@ -83,3 +83,21 @@ CLAIMS["C19"] = {
             "(need a server and execution). The chunk loop is decided "
             "piecewise, not as a whole.",
 }
+
+CLAIMS["C17"] = {
+    "technique": "def-use rules on the cache key construction, paired-update "
+                 "rules for eviction, escape analysis of memoised results "
+                 "into the dataset interface, who-calls scan",
+    "text": "The memoisation mechanisms are checked for the conditions "
+            "under which a cached value can differ from a fresh one for some "
+            "call history: a key ingredient missing (argument class, keyword "
+            "name, function identity, dtype/shape, delimiter; mtime/size/"
+            "resolved path for the file cache), the two eviction stores "
+            "drifting apart, a shared cached object escaping uncopied "
+            "through the dataset interface, a memoised function depending "
+            "on module state.",
+    "note": "Value equality with an uncached computation is not decided; "
+            "determinism of scipy/numpy callees assumed; md5 collision "
+            "freedom assumed; direct user calls of memoised functions are "
+            "outside the escape rule.",
+}
